@@ -136,6 +136,60 @@ func ruleR21(c *Ctx) *RuleResult {
 					}
 				}
 			}
+			// the converse: a child that becomes the root is made black (a red root under which the next insertion hangs a
+			// red node has no grandparent for the fix-up to turn around); and every path that found the key (the size goes
+			// down) unlinks a node
+			for _, g := range c.GCTail(fn).GCs {
+				var removed, child *Term
+				at := -1
+				dec := false
+				for i, ef := range g.Effects {
+					if nm, a, ok := effDo(ef); ok && nm == "replaceNode" && len(a) == 3 && removed == nil {
+						removed, child, at = a[1], a[2], i
+					}
+					if storeToField(ef, "size") && ef.Args[1].Op == "-" {
+						dec = true
+					}
+				}
+				if dec && removed == nil {
+					// not a path at all when it needs a child that the result of maximumNode / minimumNode never has
+					infeasible := false
+					for _, a := range g.Guards {
+						if a.Op == "!=" && len(a.Args) == 2 && a.Args[0].String() == "#:nil" && a.Args[1].Op == "load" && len(a.Args[1].Args) == 1 && a.Args[1].Args[0].Op == "fa" && len(a.Args[1].Args[0].Args) == 1 && a.Args[1].Args[0].Args[0].Op == "call" {
+							if cal := funcByKeyCached(p, a.Args[1].Args[0].Args[0].Leaf); cal != nil && postNilField(c, cal, a.Args[1].Args[0].Leaf) {
+								infeasible = true
+							}
+						}
+					}
+					if !infeasible {
+						bad = append(bad, "a path of Remove that found the key (it decrements the size) unlinks no node: "+trunc(guardsString(g), 240))
+					}
+				}
+				if removed == nil {
+					continue
+				}
+				atRoot, hasChild := false, false
+				for _, a := range g.Guards {
+					if a.Op == "==" && len(a.Args) == 2 && a.Args[0].String() == "#:nil" && a.Args[1].Op == "load" && len(a.Args[1].Args) == 1 && a.Args[1].Args[0].Op == "fa" && a.Args[1].Args[0].Leaf == "Parent" && noEpoch(a.Args[1].Args[0].Args[0]) == noEpoch(removed) {
+						atRoot = true
+					}
+					if a.Op == "!=" && len(a.Args) == 2 && a.Args[0].String() == "#:nil" && noEpoch(a.Args[1]) == noEpoch(child) {
+						hasChild = true
+					}
+				}
+				if !atRoot || !hasChild {
+					continue
+				}
+				blackened := false
+				for _, ef := range g.Effects[at+1:] {
+					if storeToField(ef, "color") && noEpoch(ef.Args[0].Args[0]) == noEpoch(child) && ef.Args[1].String() == "#:true:color" {
+						blackened = true
+					}
+				}
+				if !blackened {
+					bad = append(bad, "the child that replaces the removed root is not made black: "+trunc(guardsString(g), 240))
+				}
+			}
 		}
 		add("rbt.Remove→deleteCase1", "removing a black node runs the deletion fix-up before the node is unlinked", fn, bad, fmt.Sprintf("%d black-node removal paths, all through deleteCase1 before replaceNode", n))
 	}
